@@ -215,7 +215,7 @@ func ruleBlockReadOnlySize(c *Ctx, r *Report, prefix string) {
 		// an error although the inner read succeeded: one of the `measured > declared` tests must hold
 		exceeded := false
 		for _, g := range guardsOf(fn) {
-			if g.call != nil || (g.op != token.GTR && g.op != token.LSS) {
+			if g.call != nil {
 				continue
 			}
 			if _, isK := g.x.(*ssa.Const); isK {
@@ -224,10 +224,14 @@ func ruleBlockReadOnlySize(c *Ctx, r *Report, prefix string) {
 			if _, isK := g.y.(*ssa.Const); isK {
 				continue // `declared >= 0` style tests are not size comparisons
 			}
-			if bv, known := sp.P.BoolOf(g.iff.Cond); known {
-				cond := bv != condNegated(g.iff)
-				_ = cond
-				if bv && g.op == token.GTR || bv && g.op == token.LSS {
+			// the relation the path established at this comparison (either spelling: `a > b` taken, or
+			// `a <= b` not taken)
+			if taken, known := sp.Took(g.iff, g.site); known {
+				op := g.op
+				if !taken { // g.op already accounts for a NOT around the condition
+					op = negateOp(op)
+				}
+				if op == token.GTR || op == token.LSS {
 					exceeded = true
 				}
 			}
